@@ -66,6 +66,9 @@ func c01NewStore(t *testing.T, dir, id string) (*store.Store, *c01Layer) {
 	st := store.New(&store.Config{DBConf: store.NewDBConfig(), Dir: dir, ID: id}, ly)
 	st.NoSnapshotOnClose = true
 	st.SnapshotThreshold = 1 << 40
+	// no background reaping: an Open right after RecoverNode's snapshot can be refused while the
+	// reaper holds the snapshot store's lock, and a failed Open cannot be cleaned up from this package
+	st.SnapshotReapThreshold = 1 << 20
 	st.HeartbeatTimeout, st.ElectionTimeout, st.LeaderLeaseTimeout = 300*time.Millisecond, 300*time.Millisecond, 300*time.Millisecond
 	return st, ly
 }
@@ -368,18 +371,7 @@ func c01Program(t *testing.T, rep *vfReport, r *vfRng, nReq int, nondetEndpoint 
 			t.Fatal(err)
 		}
 		if err := a.st.Open(); err != nil {
-			// known C33 finding: start-up after RecoverNode can collide with the background
-			// reaper its snapshot woke up; the recovery itself is done, a second start works
-			if !strings.Contains(err.Error(), "failed to load any existing snapshots") {
-				t.Fatalf("recover open: %v", err)
-			}
-			rep.Count("recovery-startup-aborted-by-concurrent-reap")
-			a.ly.Close()
-			time.Sleep(300 * time.Millisecond)
-			a.st, a.ly = c01NewStore(t, a.dir, id)
-			if err := a.st.Open(); err != nil {
-				t.Fatalf("recover open (second start): %v", err)
-			}
+			t.Fatalf("recover open: %v", err)
 		}
 		c01Ready(t, a.st)
 		if got := c01Table(a.st); got == live2 {
